@@ -157,7 +157,48 @@ def generate(tier):
     return cases
 
 
+def check_table(case):
+    """scan.steady_state over a table that mixes rows with and without a steady state: every row reports ITS steady state
+    (x* = c / k1, y* = c / k2) or absence (k2 = 0: y accumulates), whatever the table's row labels are."""
+    import warnings
+
+    import pandas as pd
+    from mxlpy import scan
+
+    warnings.simplefilter("ignore")
+    m = build("chain2", [1.0, 1.0], case["c"])
+    k2s = list(case["k2"])
+    labels = {"unique": list(range(len(k2s))), "repeated": [i % 2 for i in range(len(k2s))], "strings": ["ab"[i % 2] for i in range(len(k2s))],
+              "all-equal": [7] * len(k2s)}[case["labels"]]
+    df = pd.DataFrame({"k2": k2s}, index=labels)
+    txt = f"{case}"
+    try:
+        sc = scan.steady_state(m, to_scan=df, parallel=case["parallel"], rel_norm=False)
+        got_v, got_f = sc.variables, sc.fluxes
+    except Exception as exc:  # noqa: BLE001
+        return outcome(False, "raised", symptom=f"table:raised:{type(exc).__name__}", detail=f"{type(exc).__name__}: {exc} | {txt}")
+    if len(got_v) != len(k2s) or len(sc.raw_results) != len(k2s):
+        return outcome(False, "misaligned", symptom="table:row-count-differs", detail=f"{len(got_v)} rows / {len(sc.raw_results)} results for {len(k2s)} scan rows | {txt}")
+    for pos, k2 in enumerate(k2s):
+        row = got_v.iloc[pos]
+        if k2 == 0.0:
+            if not row.isna().all():
+                return outcome(False, "false-steady-state", symptom="table:false-steady-state", detail=f"row {pos} (k2 = 0, no steady state) reports {row.to_dict()} | {txt}")
+            continue
+        if row.isna().all():
+            continue  # a failure for a row that has a steady state is allowed (6.1)
+        exp = {"x": case["c"] / 1.0, "y": case["c"] / k2}
+        for v, e in exp.items():
+            if abs(float(row[v]) - e) > 1e-4 * max(1.0, abs(e)):
+                return outcome(False, "not-a-steady-state", symptom="table:not-the-rows-steady-state", detail=f"row {pos} (k2 = {k2}): {v} = {float(row[v])}, analytic {e} | {txt}")
+        if abs(float(got_f.iloc[pos]["v2"]) - case["c"]) > 1e-4 * max(1.0, case["c"]):
+            return outcome(False, "fluxes-unbalanced", symptom="table:fluxes-not-the-rows", detail=f"row {pos}: v2 = {float(got_f.iloc[pos]['v2'])}, at steady state it equals the influx {case['c']} | {txt}")
+    return outcome(True, "table-rows-correct", nontrivial=True)
+
+
 def check(case):
+    if case.get("family") == "table":
+        return check_table(case)
     import warnings
 
     import numpy as np
@@ -237,5 +278,9 @@ PREDICATES = {}
 
 def run(ctx):
     cases = generate(ctx.tier)
-    ctx.note(f"{len(cases)} steady-state runs ({sum(1 for c in cases if not c['stable'])} on networks without a steady state)")
+    # tables that mix rows with and without a steady state, under several kinds of row labels
+    for k2, labels, parallel, c in it.product(([2.0, 0.0, 0.5, 4.0], [0.0, 2.0, 0.0, 0.5], [0.5, 2.0, 4.0, 0.0], [1.0, 0.0]), ("unique", "repeated", "strings", "all-equal"),
+                                               (False,), (1.0, 3.0)):  # (parallel scans are C09's subject and need non-daemonic workers)
+        cases.append({"family": "table", "k2": k2, "labels": labels, "parallel": parallel, "c": c})
+    ctx.note(f"{len(cases)} steady-state runs ({sum(1 for c in cases if not c.get('stable', True))} on networks without a steady state)")
     ctx.evaluate(cases, timeout=300)
